@@ -33,26 +33,3 @@ Theorem c13_dropper_destroys_each_queued_event_once :
     w_drops (unwind_queue q w) = w_drops w ++ flat_map (fun it => ev_entry (qi_targeted it) (item_tag w it) (qi_ev it)) q.
 Proof. exact unwind_queue_spec. Qed.
 Print Assumptions c13_dropper_destroys_each_queued_event_once.
-
-From Coq Require Import NArith.
-Require Import EV.WorldFrame EV.Loop EV.Member EV.NoUB EV.Sender EV.EvLedger.
-(* the event loop, completed or unwound by a panicking handler (oc = Aborted): what is stored afterwards plus what
-   was destroyed equals what was stored before plus the payloads of everything queued and sent - the in-flight
-   event (unless taken: then its taker destroyed it) and all queued ones are destroyed exactly once by the
-   unwinding, nothing twice, and the stored values are untouched by it *)
-Theorem c13_the_loop_conserves_values_also_when_unwinding :
-  forall (beh : hinfo -> logent -> N -> script) (n : nat) (q : list qitem) (w : world) (f0 : option fail) (acc tr : list qitem)
-         (w' : world) (fl : option fail) (oc : outcome),
-    Loop.flush wst qitem (run_w beh) unwind_w n q (w, f0) acc = Some (tr, (w', fl), oc) ->
-    ZI w -> TagInv w -> (forall x, In x q -> item_ok w x) -> (oc = Aborted -> fl <> Some (FPanic 5)) ->
-    registries w' = registries w /\
-    exists S nd X, w_drops w' = w_drops w ++ nd /\
-      Permutation (stored w' ++ nd) (stored w ++ entries w q ++ entries w S ++ X) /\ (oc = Finished -> X = nil).
-Proof. exact flush_loop_ledger. Qed.
-Print Assumptions c13_the_loop_conserves_values_also_when_unwinding.
-
-Theorem c13_reachable_worlds_satisfy_the_tag_invariant :
-  forall (beh : hinfo -> logent -> N -> script) (fuel p : N) (ops : list top_all),
-    TagInv (fold_left (run_top_all beh) ops (world0 fuel p)).
-Proof. exact reachable_TagInv. Qed.
-Print Assumptions c13_reachable_worlds_satisfy_the_tag_invariant.
